@@ -5,6 +5,12 @@
           (pos f|l) whose PostProcessProperties returns nil / the list / a reversed, empty or partial list (ret n|s|r|e|b|m|p).
           ResolveAfterInstantiation drops that result (`Scan.handedLoop`, C11_handed_all, C11_code_handed), and the extra
           processor registers no tag scanner, so the definition printed here is the same as for mode `G`.
+          mode `X<k>@<cls>[<order>]`: the component is ITSELF a non-lazy user post-processor (cls u = not Ordered, o = Ordered,
+          p = Ordered and Priority, Order() = <order>), started next to the built-in processors (`Facts.builtinProcessors`:
+          names, Priority, LazyInit, Order() regenerated from /repo) and an ORDERED lazy recording processor (Order() = 50).
+          It is created inside the registration loop (`Scan.populateLoop` over `Order.sortOrdered`), by the processors sorted
+          ahead of it; the definition is the same, the output gets the suffix ` pp rec=<c>`: c = 1 when the recorder is in
+          that chain (it is then handed the holder's properties once), else 0.
           node = L <name> <ty> <marker> <ntags> (<key> <valhex>)*
                | S <name> <ty> <marker> <av|ap|nv|np> <ntags> (<key> <valhex>)* <nkids> node*
     out:  `fields <n> <path>… props <m> <path>/<tag>/<ptype>/<valhex>/<args>…`
@@ -12,6 +18,8 @@
           scanner, sorted as text (path, then tag); args as in Driver.Tag.
 -/
 import Ioc.Scan
+import Ioc.Order
+import Ioc.Generated.Facts
 import Driver.Tag
 namespace Driver.Scan
 open Ioc Ioc.Scan
@@ -116,19 +124,63 @@ def chainOf (mode : String) : Option (List PropsRet) :=
     if pos = 'f' || pos = 'l' then (extraRet ret).map (fun r => [r, fun _ => none]) else none
   | _ => if mode.startsWith "G+" then none else some [fun _ => none]
 
+/-! ### a holder that is itself a post-processor (mode `X<k>@<cls>[<order>]`) -/
+
+/-- a participant of the registration: name, what SortOrderedComponents sees of it, LazyInit -/
+structure PPart where
+  name : String
+  part : Order.Part
+  lazy : Bool
+
+def recorderName : String := "recorder"
+def holderName : String := "holder"
+
+/-- the harness' recorder in these runs: Ordered (not Priority) with Order() = 50, lazy -/
+def recorderPart : PPart := ⟨recorderName, .ord 50, true⟩
+
+def builtinParts : List PPart :=
+  Facts.builtinProcessors.map fun f => ⟨f.name, Order.Part.ofIfaces (some f.order) f.priority, f.lazy⟩
+
+/-- `@u` / `@o<int>` / `@p<int>` -/
+def holderPart? (suffix : String) : Option Order.Part :=
+  match suffix.toList with
+  | ['u'] => some .plain
+  | 'o' :: ds => (String.ofList ds).toInt?.map .ord
+  | 'p' :: ds => (String.ofList ds).toInt?.map .prio
+  | _ => none
+
+/-- the chain the holder is populated by: registration order is irrelevant here (the keys of holder and recorder differ from
+    every other key), the sort is the driver's insertion sort -/
+def holderChain (hp : Order.Part) : Option (List String) :=
+  let raw := builtinParts ++ [recorderPart, ⟨holderName, hp, false⟩]
+  let sorted := Order.sortOrdered (fun lt l => isort lt l) PPart.part raw
+  populatedBy (sorted.map fun p => ⟨p.name, p.lazy⟩) [] holderName
+
+/-- `some ""` for a plain holder, `some " pp rec=<c>"` for a processor holder, `none` for a malformed mode -/
+def holderSuffix (mode : String) : Option String :=
+  match mode.splitOn "@" with
+  | [_] => some ""
+  | [_, suf] =>
+    (holderPart? suf).map fun hp =>
+      let c := match holderChain hp with
+        | some chain => if chain.contains recorderName then 1 else 0
+        | none => 0
+      " pp rec=" ++ toString c
+  | _ => none
+
 def handle (line : String) : String :=
   match (line.splitOn " ").filter (· ≠ "") with
   | mode :: ts =>
-    match chainOf mode, readKids (3 * ts.length + 10) ts with
-    | some chain, some (sh, []) =>
+    match holderSuffix mode, chainOf mode, readKids (3 * ts.length + 10) ts with
+    | some suffix, some chain, some (sh, []) =>
       -- the recorder (last of the chain) is handed everything: what it finds under its tag is the custom scanner's output
       let fs := scan sh
       match properties? procs fs with
-      | none => render sh
+      | none => render sh ++ suffix
       | some ps =>
         let handed := (handedLoop ps chain).getLast?.getD []
-        if (ofTag customTag handed).length = (ofTag customTag ps).length then render sh else "recorder-starved"
-    | _, _ => "bad-line"
+        if (ofTag customTag handed).length = (ofTag customTag ps).length then render sh ++ suffix else "recorder-starved"
+    | _, _, _ => "bad-line"
   | [] => "bad-line"
 
 end Driver.Scan
